@@ -196,6 +196,14 @@ class MessageInterface(ABC):
     def update_invalid(self, other: "MessageInterface") -> "MessageInterface":
         pass
 
+    @staticmethod
+    def _align_natural(dist: "MessageInterface", ndim: int) -> np.ndarray:
+        """natural parameters of `dist` with trailing axes added so that a message of
+        lower dimension (e.g. a scalar message) broadcasts over the elements of an
+        array message instead of over the parameter axis"""
+        eta = np.asarray(dist.natural_parameters)
+        return eta.reshape(eta.shape + (1,) * (ndim - dist.ndim))
+
     def sum_natural_parameters(self, *dists: "MessageInterface") -> "MessageInterface":
         """return the unnormalised result of multiplying the pdf
         of this distribution with another distribution of the same
@@ -206,8 +214,10 @@ class MessageInterface(ABC):
             for dist in self._iter_dists(dists)
             if isinstance(dist, MessageInterface)
         ]
+        ndim = max(dist.ndim for dist in [self] + others)
         new_params = sum(
-            (dist.natural_parameters for dist in others), self.natural_parameters,
+            (self._align_natural(dist, ndim) for dist in others),
+            self._align_natural(self, ndim),
         )
         log_norm = self.log_norm + sum(dist.log_norm for dist in others)
         return self.from_natural_parameters(
@@ -223,7 +233,8 @@ class MessageInterface(ABC):
         of this distribution with another distribution of the same
         type"""
         log_norm = self.log_norm - other.log_norm
-        new_params = self.natural_parameters - other.natural_parameters
+        ndim = max(self.ndim, other.ndim)
+        new_params = self._align_natural(self, ndim) - self._align_natural(other, ndim)
         return self.from_natural_parameters(
             new_params,
             log_norm=log_norm,
